@@ -58,8 +58,9 @@ for d in sorted(glob.glob(os.path.join(ROOT, "seeded", "C*-[A-Z]"))):
     am = json.load(open(os.path.join(d, "agent_meta.json"))) if os.path.exists(os.path.join(d, "agent_meta.json")) else {}
     log = open(os.path.join(d, "confirm.log")).read() if os.path.exists(os.path.join(d, "confirm.log")) else ""
     suite = re.search(r"suite with change: (.*)", log)
-    d1 = re.search(r"demo with change: exit (\d+)", log)
-    d0 = re.search(r"demo without change: exit (\d+)", log)
+    # the last entry counts (a demonstration that wants the worktree path as $1 was re-run with it)
+    d1 = (re.findall(r"demo with change: exit (\d+)", log) or [None])[-1]
+    d0 = (re.findall(r"demo without change: exit (\d+)", log) or [None])[-1]
     first = re.findall(r"== check (C\d+) against the change\n(?:.*\n)*?exit=(\d+)", log)
     first_verdict = {c: ("caught" if rc == "1" else "missed" if rc == "0" else "exit " + rc) for c, rc in first}
     results = []
@@ -80,8 +81,8 @@ for d in sorted(glob.glob(os.path.join(ROOT, "seeded", "C*-[A-Z]"))):
         "confirmed_by_me": {
             "how": "scripts/seed_confirm.sh: patch applied in the scratch worktree /tmp/seed/%s, `cargo test --workspace --no-fail-fast --offline`, demonstration with and without the change" % prop,
             "suite_with_change": suite.group(1) if suite else None,
-            "demo_exit_with_change": int(d1.group(1)) if d1 else None,
-            "demo_exit_without_change": int(d0.group(1)) if d0 else None,
+            "demo_exit_with_change": int(d1) if d1 else None,
+            "demo_exit_without_change": int(d0) if d0 else None,
         },
         "verdict_at_first_exposure": first_verdict,
         "strengthened": STRENGTHENED.get(sid),
